@@ -470,7 +470,23 @@ func (p *Prog) lookupFunc(pkg, recv, name string) *Fn {
 			return vf
 		}
 		o, _ := pk.Types.Scope().Lookup(name).(*types.Func)
-		return p.FnOf(o)
+		if o != nil {
+			return p.FnOf(o)
+		}
+		// a plain function that was turned into a method (one of its parameters became the receiver): the only method
+		// of that name in the package stands for it - its remaining parameters keep their order
+		var found *Fn
+		n := 0
+		for _, f := range p.fnList {
+			if f.Pkg == pk && f.Decl != nil && f.Decl.Recv != nil && f.Decl.Name.Name == name && !strings.HasSuffix(p.Fset.Position(f.Decl.Pos()).Filename, "_test.go") {
+				found = f
+				n++
+			}
+		}
+		if n == 1 {
+			return found
+		}
+		return nil
 	}
 	tn, _ := pk.Types.Scope().Lookup(recv).(*types.TypeName)
 	if tn == nil {
